@@ -40,7 +40,20 @@ type rpcInfo struct {
 	served   bool // client got the response
 	gotErr   bool // client saw an error instead of a response
 	errAt    time.Time
+
+	ending int             // how the handler is made to end once released (endOK ...)
+	stream *gateway.Stream // client side, for endClientAbort
 }
+
+// Ways a handler ends; whichever it is, both slots have to come back.
+const (
+	endOK          = iota // the chain manager answers, the reply is written
+	endCMError            // the chain manager returns an error: handleRPC returns it
+	endCMPanic            // the chain manager panics: handleRPC recovers
+	endClientAbort        // the client has closed its stream: writing the reply fails
+)
+
+var endingName = []string{"ok", "cm-error", "cm-panic", "client-abort"}
 
 type blockingCM struct {
 	*chain.Manager
@@ -84,8 +97,15 @@ func (b *blockingCM) Headers(index types.ChainIndex, max uint64) ([]types.BlockH
 	if tb.onReturn != nil {
 		tb.onReturn(ri)
 	}
+	ending := ri.ending
 	tb.mu.Unlock()
 	tb.bump()
+	switch ending {
+	case endCMError:
+		return nil, 0, errors.New("injected: headers unavailable")
+	case endCMPanic:
+		panic("injected: chain manager panics")
+	}
 	return nil, 0, nil
 }
 
@@ -159,6 +179,11 @@ type bedConfig struct {
 	// HoldPeerLoop: the peer loop's first PeerStore.Peers call is held, so Run stays busy until
 	// the harness lets it go
 	HoldPeerLoop bool `json:",omitempty"`
+	// ConnectTimeoutMs: WithConnectTimeout (default here 10s)
+	ConnectTimeoutMs int `json:",omitempty"`
+	// RPCTimeoutMs: WithRPCTimeout (default here 1 minute): a handler whose client never completes
+	// its request gives up, and returns its slots, when this deadline passes
+	RPCTimeoutMs int `json:",omitempty"`
 }
 
 type bed struct {
@@ -223,8 +248,8 @@ func newBedWith(cfg bedConfig, prefill func(syncer.PeerStore, gateway.Header), e
 		syncer.WithMaxInflightRPCs(cfg.MaxRPC),
 		syncer.WithMaxInflightRPCsPerSubnet(cfg.MaxSubnet),
 		syncer.WithInflightRPCSubnetPrefixes(cfg.V4Bits, 48),
-		syncer.WithRPCTimeout(time.Minute),
-		syncer.WithConnectTimeout(10 * time.Second),
+		syncer.WithRPCTimeout(rpcTimeout(cfg)),
+		syncer.WithConnectTimeout(connectTimeout(cfg)),
 	}
 	if cfg.FailHistory {
 		tb.histGate = make(chan struct{})
@@ -286,6 +311,20 @@ func (tb *bed) sinkAddr() string {
 	return tb.sink.Addr().String()
 }
 
+func rpcTimeout(cfg bedConfig) time.Duration {
+	if cfg.RPCTimeoutMs > 0 {
+		return time.Duration(cfg.RPCTimeoutMs) * time.Millisecond
+	}
+	return time.Minute
+}
+
+func connectTimeout(cfg bedConfig) time.Duration {
+	if cfg.ConnectTimeoutMs > 0 {
+		return time.Duration(cfg.ConnectTimeoutMs) * time.Millisecond
+	}
+	return 10 * time.Second
+}
+
 // waitFor polls cond (woken by observations, at least every 200µs) until it holds or d elapses.
 func (tb *bed) waitFor(d time.Duration, cond func() bool) bool {
 	deadline := time.Now().Add(d)
@@ -310,6 +349,8 @@ type rawPeer struct {
 	sub             int // subnet number (third octet)
 	host            int // fourth octet
 	key             int // subnet key under the configured prefix length (model subnet id)
+	port            int // advertised port (0: a fresh one)
+	outbound        bool
 	conn            net.Conn
 	t               *gateway.Transport
 	dead            chan struct{}
@@ -322,6 +363,18 @@ var portSeq atomic.Int64
 
 func srcIP(sub, host int) net.IP { return net.IPv4(127, 0, byte(sub), byte(host)) }
 
+// subnetKey is the model's subnet id of 127.0.sub.host under the configured IPv4 prefix length
+// (the harness only uses /0, /16, /24 and /32).
+func (tb *bed) subnetKey(sub, host int) int {
+	switch {
+	case tb.cfg.V4Bits >= 32:
+		return sub*256 + host
+	case tb.cfg.V4Bits >= 24:
+		return sub
+	}
+	return 0
+}
+
 // dialTCP opens the TCP connection only (the syncer runs allowConnect on accept).
 func (tb *bed) dialTCP(id, sub, host int) (*rawPeer, error) {
 	d := net.Dialer{LocalAddr: &net.TCPAddr{IP: srcIP(sub, host)}, Timeout: 5 * time.Second}
@@ -329,17 +382,16 @@ func (tb *bed) dialTCP(id, sub, host int) (*rawPeer, error) {
 	if err != nil {
 		return nil, err
 	}
-	key := sub
-	if tb.cfg.V4Bits >= 32 {
-		key = sub*256 + host
-	}
-	return &rawPeer{id: id, sub: sub, host: host, key: key, conn: conn, dead: make(chan struct{})}, nil
+	return &rawPeer{id: id, sub: sub, host: host, key: tb.subnetKey(sub, host), conn: conn, dead: make(chan struct{})}, nil
 }
 
 // handshake performs the gateway handshake; an error means the syncer closed the
 // connection before or during it (allowConnect refused, or the handshake failed).
 func (tb *bed) handshake(p *rawPeer) error {
-	port := 20000 + portSeq.Add(1)%40000
+	port := int64(p.port)
+	if port == 0 {
+		port = 20000 + portSeq.Add(1)%40000
+	}
 	p.conn.SetDeadline(time.Now().Add(10 * time.Second))
 	t, err := gateway.Dial(p.conn, gateway.Header{
 		GenesisID:  tb.genesis,
@@ -365,6 +417,53 @@ func (tb *bed) handshake(p *rawPeer) error {
 		}
 	}()
 	return nil
+}
+
+// connectOut makes the syncer dial an acceptor of the harness bound to 127.0.sub.host; the
+// acceptor's end of the connection is then used like any raw peer (it can send RPCs).
+func (tb *bed) connectOut(id, sub, host int) (*rawPeer, error) {
+	l, err := net.Listen("tcp", fmt.Sprintf("%s:0", srcIP(sub, host)))
+	if err != nil {
+		return nil, err
+	}
+	defer l.Close()
+	p := &rawPeer{id: id, sub: sub, host: host, key: tb.subnetKey(sub, host), dead: make(chan struct{}), outbound: true, addr: l.Addr().String()}
+	got := make(chan error, 1)
+	go func() {
+		conn, err := l.Accept()
+		if err != nil {
+			got <- err
+			return
+		}
+		conn.SetDeadline(time.Now().Add(10 * time.Second))
+		t, err := gateway.Accept(conn, gateway.Header{GenesisID: tb.genesis, UniqueID: gateway.GenerateUniqueID(), NetAddress: l.Addr().String()})
+		if err != nil {
+			conn.Close()
+			got <- err
+			return
+		}
+		conn.SetDeadline(time.Time{})
+		p.conn, p.t = conn, t
+		got <- nil
+		for {
+			st, err := t.AcceptStream()
+			if err != nil {
+				close(p.dead)
+				tb.bump()
+				return
+			}
+			st.Close()
+		}
+	}()
+	ctx, cancel := context.WithTimeout(context.Background(), 10*time.Second)
+	defer cancel()
+	if _, err := tb.s.Connect(ctx, l.Addr().String()); err != nil {
+		return nil, err
+	}
+	if err := <-got; err != nil {
+		return nil, err
+	}
+	return p, nil
 }
 
 // refusedEarly reports whether the syncer has already closed the freshly opened connection
@@ -404,10 +503,12 @@ func (p *rawPeer) close() {
 
 // send issues one RPCSendHeaders whose Index.Height identifies it; the fate of the
 // request is recorded when the response or an error arrives.
-func (tb *bed) send(p *rawPeer) *rpcInfo {
+func (tb *bed) send(p *rawPeer) *rpcInfo { return tb.sendEnding(p, endOK) }
+
+func (tb *bed) sendEnding(p *rawPeer, ending int) *rpcInfo {
 	tb.mu.Lock()
 	tb.nextRID++
-	ri := &rpcInfo{rid: tb.nextRID, conn: p.id, sub: p.key, gate: make(chan struct{}), sentSeq: p.nsent}
+	ri := &rpcInfo{rid: tb.nextRID, conn: p.id, sub: p.key, gate: make(chan struct{}), sentSeq: p.nsent, ending: ending}
 	p.nsent++
 	tb.rpcs[ri.rid] = ri
 	if tb.onSend != nil {
@@ -435,6 +536,9 @@ func (tb *bed) send(p *rawPeer) *rpcInfo {
 		tb.bump()
 		return ri
 	}
+	tb.mu.Lock()
+	ri.stream = st
+	tb.mu.Unlock()
 	go func() {
 		resp := &gateway.RPCSendHeaders{Max: 1}
 		err := st.ReadResponse(resp)
@@ -454,6 +558,9 @@ func (tb *bed) send(p *rawPeer) *rpcInfo {
 
 func (tb *bed) open(ri *rpcInfo) {
 	tb.mu.Lock()
+	if !ri.opened && ri.ending == endClientAbort && ri.stream != nil {
+		ri.stream.Close() // the client walks away before the handler gets to reply
+	}
 	if !ri.opened {
 		ri.opened = true
 		close(ri.gate)
@@ -499,6 +606,7 @@ type inventory struct {
 	total    int
 	handlers int // goroutines created by Syncer.runPeer (RPC handlers)
 	loops    int // goroutines executing Syncer.runPeer itself
+	syncer   int // goroutines with a frame of package coreutils/syncer
 	byPkg    map[string]int
 	dump     string
 }
@@ -525,6 +633,9 @@ func goroutines() inventory {
 		}
 		if strings.Contains(g, "go.sia.tech/coreutils/syncer.(*Syncer).runPeer(") {
 			inv.loops++
+		}
+		if strings.Contains(g, "go.sia.tech/coreutils/syncer.") {
+			inv.syncer++
 		}
 		for _, pkg := range []string{"coreutils/syncer.", "coreutils/rhp/v4.", "coreutils/wallet.", "coreutils/threadgroup.", "go.sia.tech/mux", "coreutils/rhp/v4/siamux."} {
 			if strings.Contains(g, pkg) {
